@@ -85,8 +85,8 @@ MUTANTS = [
      "        return sum(error * self.edge_error_scaling.get(edge, 1) for edge, error in edge_errors.items())", "        return sum(edge_errors.values())", ["C07"]),
     ("c15_msc_weight_as_int", "flowpaths/minsetcover.py",
      "                self.subset_weights[i] * self.subset_vars[i]", "                int(self.subset_weights[i]) * self.subset_vars[i]", ["C15"]),
-    ("c06_idom_wrong_endpoint", "flowpaths/utils/safetypathcoverscycles.py",
-     "        s_idoms[(u,v)] = tuple(reversed(s_idom)) if s_idom != None else G.source", "        s_idoms[(u,v)] = tuple(reversed(s_idom)) if (s_idom != None and G.in_degree(u) != 2) else G.source", ["C06"]),
+    ("c06_false_dominator", "flowpaths/utils/safetypathcoverscycles.py",
+     "        t_idoms[(u,v)] = t_idom                  if t_idom != None else G.sink", "        t_idoms[(u,v)] = t_idom                  if t_idom != None else (next(iter(G.out_edges(v))) if G.out_degree(v) == 2 else G.sink)", ["C06"]),
 ]
 
 
